@@ -71,6 +71,8 @@ pub struct Pinned {
     pub free: Vec<(String, Ty)>,
     pub ty: Ty,
     pub expr: Expr,
+    /// arguments the built programs were instantiated with (empty unless the text uses `param::`)
+    pub args: Vec<(String, Val, Ty)>,
 }
 
 /// Build `wrap_term(e)` with the given debug flags.
@@ -84,7 +86,7 @@ pub fn pin_build(e: &Expr, ty: &Ty, free: &[(String, Ty)], fns: &[FnDef], debug_
             Err(o) => return Err((text, o)),
         }
     }
-    Ok(Pinned { prog, text, built, free: free.to_vec(), ty: ty.clone(), expr: e.clone() })
+    Ok(Pinned { prog, text, built, free: free.to_vec(), ty: ty.clone(), expr: e.clone(), args: vec![] })
 }
 
 /// Like `pin_build`, but every free variable that occurs exactly once in the term is written as a direct
@@ -101,7 +103,7 @@ pub fn pin_build_direct(e: &Expr, ty: &Ty, free: &[(String, Ty)], fns: &[FnDef],
             Err(o) => return Err((text, o)),
         }
     }
-    Ok(Pinned { prog, text, built, free: free.to_vec(), ty: ty.clone(), expr: e.clone() })
+    Ok(Pinned { prog, text, built, free: free.to_vec(), ty: ty.clone(), expr: e.clone(), args: vec![] })
 }
 
 pub fn run_replay(text: &str, witness: &[(String, Val, Ty)], debug: bool, expect: &str, observed: &str) -> J {
@@ -168,7 +170,9 @@ pub fn pin_run(rep: &Report, prop: &str, tag: &str, p: &Pinned, vals: &[Val], en
                     },
                     out
                 );
-                rep.violation(format!("{prop}:{}-but-{}:{}", expect, out.class(), tag.split(' ').next().unwrap_or("")), what, run_replay(&p.text, &w, *debug, expect, out.class()));
+                let mut rj = run_replay(&p.text, &w, *debug, expect, out.class());
+                rj["args"] = map_json(&p.args);
+                rep.violation(format!("{prop}:{}-but-{}:{}", expect, out.class(), tag.split(' ').next().unwrap_or("")), what, rj);
             }
         }
     }
